@@ -74,6 +74,22 @@ pub enum Shape {
     Enum(&'static [&'static str]),
     Any,
     Ignore,
+    // >>> a_c04 (wave 4): one shape per remaining `Deserializer` method, size hints, typed map keys
+    Char,
+    Unit,
+    UnitStruct,
+    Newtype(Box<Shape>),
+    TupS(Vec<Shape>),
+    Bytes,
+    ByteBuf,
+    SRef,
+    Ident,
+    U128,
+    I128,
+    HSeq(Box<Shape>),
+    HMap(Box<Shape>),
+    KMap(Box<Shape>, Box<Shape>),
+    // <<< a_c04
 }
 
 thread_local! {
@@ -157,6 +173,47 @@ impl<'a> P<'a> {
             "dh" => Shape::DateHour,
             "any" => Shape::Any,
             "ign" => Shape::Ignore,
+            // >>> a_c04
+            "char" => Shape::Char,
+            "unit" => Shape::Unit,
+            "ustruct" => Shape::UnitStruct,
+            "bytes" => Shape::Bytes,
+            "bytebuf" => Shape::ByteBuf,
+            "sref" => Shape::SRef,
+            "ident" => Shape::Ident,
+            "u128" => Shape::U128,
+            "i128" => Shape::I128,
+            "newtype" | "hseq" | "hmap" => {
+                self.eat(b'(');
+                let s = Box::new(self.shape());
+                self.eat(b')');
+                match w {
+                    "newtype" => Shape::Newtype(s),
+                    "hseq" => Shape::HSeq(s),
+                    _ => Shape::HMap(s),
+                }
+            }
+            "kmap" => {
+                self.eat(b'(');
+                let k = Box::new(self.shape());
+                self.eat(b',');
+                let v = Box::new(self.shape());
+                self.eat(b')');
+                Shape::KMap(k, v)
+            }
+            "tups" => {
+                self.eat(b'(');
+                let mut v = Vec::new();
+                while self.peek() != b')' {
+                    v.push(self.shape());
+                    if self.peek() == b',' {
+                        self.i += 1;
+                    }
+                }
+                self.eat(b')');
+                Shape::TupS(v)
+            }
+            // <<< a_c04
             "opt" | "seq" | "map" | "prop" => {
                 self.eat(b'(');
                 let s = Box::new(self.shape());
@@ -259,6 +316,13 @@ pub enum Value {
     Struct(Vec<(&'static str, Value)>),
     Prop(u8, Box<Value>),
     Enum(&'static str),
+    // >>> a_c04
+    Char(char),
+    BigU(u128),
+    BigI(i128),
+    /// the size hints seen before every next_element / next_key call, then the value
+    Hint(Vec<Option<usize>>, Box<Value>),
+    // <<< a_c04
 }
 
 pub fn show_value(v: &Value, o: &mut String) {
@@ -341,6 +405,24 @@ pub fn show_value(v: &Value, o: &mut String) {
         Value::Enum(s) => {
             let _ = write!(o, "(enum {})", hex(s.as_bytes()));
         }
+        // >>> a_c04
+        Value::Char(c) => {
+            let mut b = [0u8; 4];
+            let _ = write!(o, "(char {})", hex(c.encode_utf8(&mut b).as_bytes()));
+        }
+        Value::BigU(n) => {
+            let _ = write!(o, "(u {})", n);
+        }
+        Value::BigI(n) => {
+            let _ = write!(o, "(i {})", n);
+        }
+        Value::Hint(h, x) => {
+            let hs: Vec<String> = h.iter().map(|x| x.map(|n| n.to_string()).unwrap_or_else(|| "-".to_string())).collect();
+            let _ = write!(o, "(hint {} ", hs.join(","));
+            show_value(x, o);
+            o.push(')');
+        }
+        // <<< a_c04
     }
 }
 
@@ -409,9 +491,123 @@ impl<'de, 's> DeserializeSeed<'de> for Seed<'s> {
             Shape::Enum(vars) => d.deserialize_enum("DynEnum", vars, EnumV(vars)),
             Shape::Any => d.deserialize_any(AnyV),
             Shape::Ignore => IgnoredAny::deserialize(d).map(|_| Value::Ign),
+            // >>> a_c04
+            Shape::Char => char::deserialize(d).map(Value::Char),
+            Shape::Unit => <()>::deserialize(d).map(|_| Value::Unit),
+            Shape::UnitStruct => d.deserialize_unit_struct("DynUnit", UnitV),
+            Shape::Newtype(s) => d.deserialize_newtype_struct("DynNewtype", NewtypeV(s)),
+            Shape::TupS(v) => d.deserialize_tuple_struct("DynTupS", v.len(), TupV(v)),
+            Shape::Bytes => d.deserialize_bytes(AnyV),
+            Shape::ByteBuf => d.deserialize_byte_buf(AnyV),
+            Shape::SRef => d.deserialize_str(StrV),
+            Shape::Ident => d.deserialize_identifier(StrV),
+            Shape::U128 => u128::deserialize(d).map(Value::BigU),
+            Shape::I128 => i128::deserialize(d).map(Value::BigI),
+            Shape::HSeq(s) => d.deserialize_seq(HSeqV(s)),
+            Shape::HMap(s) => d.deserialize_map(HMapV(s)),
+            Shape::KMap(k, v) => d.deserialize_map(KMapV(k, v)),
+            // <<< a_c04
         }
     }
 }
+
+// >>> a_c04: visitors of the added shapes (what serde / serde_derive generate for the corresponding Rust types)
+/// unit struct: like serde_derive's visitor, only visit_unit
+struct UnitV;
+impl<'de> Visitor<'de> for UnitV {
+    type Value = Value;
+    fn expecting(&self, f: &mut fmt::Formatter) -> fmt::Result {
+        f.write_str("unit struct DynUnit")
+    }
+    fn visit_unit<E: de::Error>(self) -> Result<Value, E> {
+        Ok(Value::Unit)
+    }
+}
+
+/// newtype struct: like serde_derive's visitor, visit_newtype_struct and visit_seq (first element)
+struct NewtypeV<'s>(&'s Shape);
+impl<'de, 's> Visitor<'de> for NewtypeV<'s> {
+    type Value = Value;
+    fn expecting(&self, f: &mut fmt::Formatter) -> fmt::Result {
+        f.write_str("tuple struct DynNewtype")
+    }
+    fn visit_newtype_struct<D: Deserializer<'de>>(self, d: D) -> Result<Value, D::Error> {
+        Seed(self.0).deserialize(d)
+    }
+    fn visit_seq<A: SeqAccess<'de>>(self, mut a: A) -> Result<Value, A::Error> {
+        match a.next_element_seed(Seed(self.0))? {
+            Some(x) => Ok(x),
+            None => Err(de::Error::invalid_length(0, &self)),
+        }
+    }
+}
+
+/// `&str` / `Cow<str>` / identifier-like targets: strings only, however they are handed over
+struct StrV;
+impl<'de> Visitor<'de> for StrV {
+    type Value = Value;
+    fn expecting(&self, f: &mut fmt::Formatter) -> fmt::Result {
+        f.write_str("a string")
+    }
+    fn visit_str<E: de::Error>(self, v: &str) -> Result<Value, E> {
+        Ok(Value::Str(v.to_string()))
+    }
+}
+
+/// Vec<T>-like visitor that also records SeqAccess::size_hint before every step
+struct HSeqV<'s>(&'s Shape);
+impl<'de, 's> Visitor<'de> for HSeqV<'s> {
+    type Value = Value;
+    fn expecting(&self, f: &mut fmt::Formatter) -> fmt::Result {
+        f.write_str("a sequence")
+    }
+    fn visit_seq<A: SeqAccess<'de>>(self, mut a: A) -> Result<Value, A::Error> {
+        let mut v = Vec::new();
+        let mut h = vec![a.size_hint()];
+        while let Some(x) = a.next_element_seed(Seed(self.0))? {
+            v.push(x);
+            h.push(a.size_hint());
+        }
+        Ok(Value::Hint(h, Box::new(Value::Seq(v))))
+    }
+}
+
+/// HashMap<String, T>-like visitor that also records MapAccess::size_hint before every step
+struct HMapV<'s>(&'s Shape);
+impl<'de, 's> Visitor<'de> for HMapV<'s> {
+    type Value = Value;
+    fn expecting(&self, f: &mut fmt::Formatter) -> fmt::Result {
+        f.write_str("a map")
+    }
+    fn visit_map<A: MapAccess<'de>>(self, mut a: A) -> Result<Value, A::Error> {
+        let mut v = Vec::new();
+        let mut h = vec![a.size_hint()];
+        while let Some(k) = a.next_key::<String>()? {
+            let x = a.next_value_seed(Seed(self.0))?;
+            v.push((k, x));
+            h.push(a.size_hint());
+        }
+        Ok(Value::Hint(h, Box::new(Value::Map(v))))
+    }
+}
+
+/// HashMap<K, T>-like visitor with a typed key
+struct KMapV<'s>(&'s Shape, &'s Shape);
+impl<'de, 's> Visitor<'de> for KMapV<'s> {
+    type Value = Value;
+    fn expecting(&self, f: &mut fmt::Formatter) -> fmt::Result {
+        f.write_str("a map")
+    }
+    fn visit_map<A: MapAccess<'de>>(self, mut a: A) -> Result<Value, A::Error> {
+        let mut v = Vec::new();
+        while let Some(k) = a.next_key_seed(Seed(self.0))? {
+            let x = a.next_value_seed(Seed(self.1))?;
+            v.push((k, x));
+        }
+        Ok(Value::AMap(v))
+    }
+}
+// <<< a_c04
 
 struct OptV<'s>(&'s Shape);
 impl<'de, 's> Visitor<'de> for OptV<'s> {
@@ -1000,6 +1196,136 @@ fn show_stats(st: &Option<Rc<Stats>>) -> String {
     }
 }
 
+// >>> a_c04
+/// `de.bin.entry <variant> ...`: variant =
+///   tape-from2            from_tape(..) once, BinaryDeserializer::deserialize twice (must be equal)
+///   tape-late             builder left at its default strategy, BinaryDeserializer::on_failed_resolve afterwards
+///   slice-from2           from_slice(..) once, OndemandBinaryDeserializer::deserialize twice: "first ;; second"
+///   reader-from2:<n>:<s>  from_reader(..) once, BinaryReaderDeserializer::deserialize twice
+///   wf-tape | wf-slice | wf-reader:<n>:<s>   BinaryDeserializerBuilder::with_flavor
+///   ref-tape | ref-slice                      BinaryFlavor::deserializer() (flavor = &Fl) + on_failed_resolve
+///   box-slice | box-tape                      flavor = Box<Fl>
+///   res-ref-slice | res-box-slice | res-box-tape   resolver behind & / Box<dyn TokenResolver>
+fn run_entry(variant: &str, strat: FailedResolveStrategy, res: &Res, fl: Fl, data: &[u8]) -> String {
+    use jomini::binary::de::BinaryDeserializerBuilder;
+    let show2 = |a: Result<DynValue, jomini::Error>, b: Result<DynValue, jomini::Error>| format!("{} ;; {}", show_result(a), show_result(b));
+    match variant {
+        "tape-from2" | "tape-late" => {
+            let tape = match BinaryTape::from_slice(data) {
+                Ok(t) => t,
+                Err(e) => return err_class(&e),
+            };
+            let mut b = BinaryDeserializer::builder_flavor(fl);
+            if variant == "tape-from2" {
+                b.on_failed_resolve(strat);
+                let d = b.from_tape(&tape, res);
+                let r1 = show_result(d.deserialize::<DynValue>());
+                let r2 = show_result(d.deserialize::<DynValue>());
+                if r1 == r2 {
+                    r1
+                } else {
+                    format!("DIFF:{}|{}", r1, r2)
+                }
+            } else {
+                let mut d = b.from_tape(&tape, res);
+                d.on_failed_resolve(strat);
+                show_result(d.deserialize::<DynValue>())
+            }
+        }
+        "slice-from2" => {
+            let mut b = BinaryDeserializer::builder_flavor(fl);
+            b.on_failed_resolve(strat);
+            let mut d = b.from_slice(data, res);
+            let r1 = d.deserialize::<DynValue>();
+            let r2 = d.deserialize::<DynValue>();
+            show2(r1, r2)
+        }
+        "wf-tape" | "box-tape" | "ref-tape" => {
+            let tape = match BinaryTape::from_slice(data) {
+                Ok(t) => t,
+                Err(e) => return err_class(&e),
+            };
+            match variant {
+                "wf-tape" => {
+                    let mut b = BinaryDeserializerBuilder::with_flavor(fl);
+                    b.on_failed_resolve(strat);
+                    show_result(b.deserialize_tape::<_, DynValue>(&tape, res))
+                }
+                "box-tape" => {
+                    let mut b = BinaryDeserializer::builder_flavor(Box::new(fl));
+                    b.on_failed_resolve(strat);
+                    show_result(b.deserialize_tape::<_, DynValue>(&tape, res))
+                }
+                _ => {
+                    let mut b = fl.deserializer();
+                    b.on_failed_resolve(strat);
+                    show_result(b.deserialize_tape::<_, DynValue>(&tape, res))
+                }
+            }
+        }
+        "wf-slice" => {
+            let mut b = BinaryDeserializerBuilder::with_flavor(fl);
+            b.on_failed_resolve(strat);
+            show_result(b.deserialize_slice::<_, DynValue>(data, res))
+        }
+        "box-slice" => {
+            let mut b = BinaryDeserializer::builder_flavor(Box::new(fl));
+            b.on_failed_resolve(strat);
+            show_result(b.deserialize_slice::<_, DynValue>(data, res))
+        }
+        "ref-slice" => {
+            let mut b = fl.deserializer();
+            b.on_failed_resolve(strat);
+            show_result(b.deserialize_slice::<_, DynValue>(data, res))
+        }
+        // `impl TokenResolver for &T` / `Box<T>`
+        "res-ref-slice" => {
+            let mut b = BinaryDeserializer::builder_flavor(fl);
+            b.on_failed_resolve(strat);
+            let rr: &Res = res;
+            show_result(b.deserialize_slice::<&Res, DynValue>(data, &rr))
+        }
+        "res-box-slice" | "res-box-tape" => {
+            let mut b = BinaryDeserializer::builder_flavor(fl);
+            b.on_failed_resolve(strat);
+            let boxed: Box<dyn TokenResolver + '_> = Box::new(res);
+            if variant == "res-box-slice" {
+                show_result(b.deserialize_slice::<Box<dyn TokenResolver + '_>, DynValue>(data, &boxed))
+            } else {
+                let tape = match BinaryTape::from_slice(data) {
+                    Ok(t) => t,
+                    Err(e) => return err_class(&e),
+                };
+                show_result(b.deserialize_tape::<Box<dyn TokenResolver + '_>, DynValue>(&tape, &boxed))
+            }
+        }
+        _ => {
+            if let Some(rest) = variant.strip_prefix("reader-from2:") {
+                let (n, sched) = rest.split_once(':').expect("reader-from2:<n>:<sched>");
+                let (rd, _st) = SchedRead::new(data, sched);
+                let mut b = BinaryDeserializer::builder_flavor(fl);
+                b.on_failed_resolve(strat);
+                b.reader_config(jomini::binary::TokenReaderBuilder::default().buffer_len(n.parse().expect("buflen")));
+                let mut d = b.from_reader(rd, res);
+                let r1 = d.deserialize::<DynValue>();
+                let r2 = d.deserialize::<DynValue>();
+                return show2(r1, r2);
+            }
+            if let Some(rest) = variant.strip_prefix("wf-reader:") {
+                let (n, sched) = rest.split_once(':').expect("wf-reader:<n>:<sched>");
+                let (rd, _st) = SchedRead::new(data, sched);
+                let mut b = BinaryDeserializerBuilder::with_flavor(fl);
+                // the two setters in the other order than run_bin
+                b.reader_config(jomini::binary::TokenReaderBuilder::default().buffer_len(n.parse().expect("buflen")));
+                b.on_failed_resolve(strat);
+                return show_result(b.deserialize_reader::<_, DynValue, _>(rd, res));
+            }
+            panic!("unknown entry variant {}", variant)
+        }
+    }
+}
+// <<< a_c04
+
 pub fn dispatch(kind: &str, a: &[&str]) -> Option<String> {
     let r = match (kind, a) {
         ("de.text", [path, enc, shape, h]) | ("de.calls.text", [path, enc, shape, h]) => {
@@ -1070,6 +1396,17 @@ pub fn dispatch(kind: &str, a: &[&str]) -> Option<String> {
             let res = Res::Map(HashMap::new());
             show_result(with_shape(&sh, || run_bin::<DynValue>("slice", FailedResolveStrategy::Error, &res, Fl::Eu4, &data, &mut st)))
         }
+        // >>> a_c04: the remaining public entry points / ways to get at the three deserializers
+        ("de.bin.entry", [variant, strat, res, fl, shape, h]) => {
+            let sh = parse_shape(shape);
+            let data = unhex(h);
+            let res = match parse_resolver(res) {
+                Ok(r) => r,
+                Err(e) => return Some(format!("RESOLVER-{}", err_class(&e))),
+            };
+            with_shape(&sh, || run_entry(variant, parse_strategy(strat), &res, parse_flavor(fl), &data))
+        }
+        // <<< a_c04
         ("de.resolver", [res, ids]) => {
             let res = match parse_resolver(res) {
                 Ok(r) => r,
